@@ -28,12 +28,20 @@ type storeLog struct {
 	on    bool
 	n     int
 	fault int
+	crash int
 	calls [][]interface{}
 }
 
 func (l *storeLog) begin(fault int) {
 	l.Lock()
-	l.on, l.n, l.fault, l.calls = true, 0, fault, nil
+	l.on, l.n, l.fault, l.crash, l.calls = true, 0, fault, -1, nil
+	l.Unlock()
+}
+
+// beginCrash: the process dies right before its k-th store call - that call and every later one (rollbacks included) has no effect
+func (l *storeLog) beginCrash(k int) {
+	l.Lock()
+	l.on, l.n, l.fault, l.crash, l.calls = true, 0, -1, k, nil
 	l.Unlock()
 }
 func (l *storeLog) end() [][]interface{} {
@@ -66,7 +74,7 @@ func (l *storeLog) react(action k8stesting.Action) (bool, runtime.Object, error)
 	}
 	idx := l.n
 	l.n++
-	inj := idx == l.fault
+	inj := idx == l.fault || (l.crash >= 0 && idx >= l.crash)
 	l.calls = append(l.calls, []interface{}{action.GetVerb(), name, inj})
 	if inj {
 		return true, nil, fmt.Errorf("injected failure of store call %d", idx)
@@ -90,7 +98,7 @@ type pendingEv struct {
 }
 
 func newIpamWorld() *ipamWorld {
-	w := &ipamWorld{cli: fakeGalaxyCli.NewSimpleClientset(), log: &storeLog{fault: -1}, pending: map[string]pendingEv{}}
+	w := &ipamWorld{cli: fakeGalaxyCli.NewSimpleClientset(), log: &storeLog{fault: -1, crash: -1}, pending: map[string]pendingEv{}}
 	w.cli.PrependReactor("*", "floatingips", w.log.react)
 	w.hcli = &hookedCli{Interface: w.cli}
 	w.ipam = floatingip.NewCrdIPAM(w.hcli, nil)
